@@ -1,8 +1,8 @@
 #!/bin/bash
 # usage: tools/sweep.sh <tier> <seed> [<seed>...]   runs every claimed check for each seed (6 at a time), prints one line per run
 tier=$1; shift
-cd /verif
+cd "$(dirname "$0")/.."
 (cd lean && lake build >/dev/null 2>&1)
 for s in "$@"; do
   for p in C01 C02 C03 C04 C05 C06 C07 C08 C09 C10 C11 C12 C13 C14 C15 C16 C17 C18 C19 C20; do echo "$s $p"; done
-done | xargs -P 6 -L 1 bash -c 'out=$(VERIF_SEED=$0 ./check $1 --tier '$tier' 2>&1); code=$?; echo "seed=$0 $1 exit=$code :: $(echo "$out" | grep -v conda | grep -E "VIOLATION|KNOWN|internal|exit [0-9]" | head -3 | tr "\n" " " | cut -c1-300)"'
+done | xargs -P ${PAR:-6} -L 1 bash -c 'out=$(VERIF_SEED=$0 ./check $1 --tier '$tier' 2>&1); code=$?; echo "seed=$0 $1 exit=$code :: $(echo "$out" | grep -v conda | grep -E "VIOLATION|KNOWN|internal|exit [0-9]" | head -3 | tr "\n" " " | cut -c1-300)"'
